@@ -53,7 +53,9 @@ ReportPerm(i, r, p) ==
        LET q == Summary([k \in 1..NM(r) |-> s[r.in.perms[p][k]]], r.in.latest) IN
          (q.lat = o.lat /\ q.earl = o.earl /\ q.arch = o.arch /\ q.cu = BN(r, p).cu) \/ PrintT(<<"DRIFT", i, p>>)
 
-Report(i, r) == IF ~BindOK(r) THEN PrintT(<<"BAD", i, 0, "bind">>)
+Crashed(r) == \E j \in 1..Len(r.out) : r.out[j].panic \/ r.out[j].hang
+Report(i, r) == IF Crashed(r) THEN PrintT(<<"BAD", i, 0, "panic">>)
+                ELSE IF ~BindOK(r) THEN PrintT(<<"BAD", i, 0, "bind">>)
                 ELSE \A p \in 1..NP(r) : ReportPerm(i, r, p)
 
 TInit == l = 0 /\ batch = <<>> /\ latest = 0
